@@ -70,6 +70,21 @@ def _taut(m):
     return out
 
 
+def _live_gen(m, method, k, **kw):
+    """Read-only enumerators called on the live object itself (not on a copy), consumed up to item k and then dropped."""
+    out = []
+    for t in getattr(m, method)(**kw):
+        out.append(str(t))
+        if len(out) >= k:
+            break
+    return out
+
+
+def _prim(m):
+    return ([(n, a.atomic_number, a.isotope, a.charge, a.is_radical, a.implicit_hydrogens) for n, a in m.atoms()],
+            sorted((min(n, k), max(n, k), b.order) for n, k, b in m.bonds()))
+
+
 def _kek_enum(m):
     out = []
     for k in m.copy().enumerate_kekule():
@@ -287,6 +302,11 @@ def _scoped_sub(m):
 
 OBSERVERS['scoped_sub'] = _scoped_sub
 OBSERVERS['enumerate_charged_forms'] = _charged_forms
+OBSERVERS['taut_live_np1'] = lambda m: _live_gen(m, 'enumerate_tautomers', 1, prepare_molecules=False)
+OBSERVERS['taut_live_np2'] = lambda m: _live_gen(m, 'enumerate_tautomers', 2, prepare_molecules=False)
+OBSERVERS['taut_live_np6'] = lambda m: _live_gen(m, 'enumerate_tautomers', 6, prepare_molecules=False, limit=8)
+OBSERVERS['taut_live_p2'] = lambda m: _live_gen(m, 'enumerate_tautomers', 2)
+OBSERVERS['charged_live2'] = lambda m: _live_gen(m, 'enumerate_charged_forms', 2)
 OBSERVERS['mcs'] = _mcs
 OBSERVERS['split'] = lambda m: [str(x) for x in m.split()]
 for _name, _meth in (('remove_metals_log', 'remove_metals'), ('remove_acids_log', 'remove_acids'),
@@ -406,6 +426,7 @@ def main():
     corpus = job['corpus']
     _TSEED[0] = int(cfg.get('tseed', 0))
     live, copies = {}, {}
+    primed = {}
     out = []
     for ev in job['events']:
         k = ev[0]
@@ -417,6 +438,15 @@ def main():
                 m = tbl.get(ev[1])
                 if m is None:
                     continue
+                before = None
+                if ev[1] not in primed and hasattr(m, 'enumerate_tautomers'):
+                    primed[ev[1]] = True
+                    out.append([ev[1], '_input_unchanged', ev[3], 'ok'])
+                if hasattr(m, 'enumerate_tautomers'):
+                    try:
+                        before = _prim(m)
+                    except Exception:
+                        before = None
                 try:
                     fn = OBSERVERS.get(ev[2]) or QRY_OBSERVERS[ev[2]]
                     if ev[2] in WARMABLE:
@@ -427,6 +457,14 @@ def main():
                 except Exception as e:
                     v = 'EXC:' + type(e).__name__
                 out.append([ev[1], ev[2], ev[3], v])
+                if before is not None:
+                    try:
+                        after = _prim(m)
+                    except Exception:
+                        after = None
+                    if after != before:
+                        # every observer is a read: normalisers run on copies, enumerators are documented generators
+                        out.append([ev[1], '_input_unchanged', ev[3], 'CHANGED-BY:' + ev[2]])
             elif k == 'flush':
                 if ev[1] in live:
                     live[ev[1]].flush_cache()
